@@ -105,7 +105,7 @@ Delete of a corrupt record fails (fault injection). -/
 def classify (delFails : Nat → Bool) : List Nat → Classified → Classified
   | [], c => c
   | key :: rest, c =>
-    if key == Facts.clientIDKey || key / Facts.remoteIDKeyFlag % 2 == 1 then classify delFails rest c else
+    if key == Facts.clientIDKey then classify delFails rest c else
     match c.store.get key with
     | none => classify delFails rest c   -- listed but not loadable: decodeValue(nil) is "truncated"
     | some raw =>
@@ -114,6 +114,8 @@ def classify (delFails : Nat → Bool) : List Nat → Classified → Classified
         if delFails key then classify delFails rest { c with warns := c.warns ++ [.corruptKept key] }
         else classify delFails rest { c with store := c.store.erase key, warns := c.warns ++ [.corruptDeleted key] }
       | .ok (packet, seq) =>
+        -- an intact marker of the receive side stays as it is: nothing to resend
+        if key / Facts.remoteIDKeyFlag % 2 == 1 then classify delFails rest c else
         match packet with
         | [] => { c with panic := true }     -- packet[0] index out of range
         | h :: _ =>
